@@ -639,6 +639,9 @@ Section PrefixThm.
       destruct (firstn_app_cases j (phead 0 idx) (flat y)) as [[Hk1 ->]|[Hk1 ->]].
       + apply bind_eoi. now apply dec_uint_short.
       + rewrite (bind_ok _ _ _ _ _ (dec_uint_phead 4294967295 idx _ (p + 1) L ltac:(lia) ltac:(lia) ltac:(lens2))).
+        assert (Hlt : (idx <? len (map D ts)) = true).
+        { apply N.ltb_lt. unfold len. rewrite map_length. pose proof (proj1 (nth_error_Some ts (N.to_nat idx)) ltac:(congruence)). lia. }
+        rewrite Hlt.
         rewrite (map_nth_error D _ _ Ht'). apply bind_eoi.
         apply (Hp v y _ _ L Hy); try assumption; lens2.
     - (* TyBound *) cbn [ty_ok rt_ok] in Hok, Hrt.
